@@ -17,8 +17,8 @@ agree = Base.agree; nontrivial = Base.nontrivial; signature = Base.signature; ex
 
 def classify(op, m):
     t = op.split(' ')
-    if t[0] == 'cbor.enc':
-        return f'cbor.enc:{m.split(" ")[0]}'
+    if t[0] in ('cbor.enc', 'cbor.enc.cont'):
+        return f'{t[0]}:{m.split(" ")[0]}:{m.split(" ")[-1][:9]}'
     if t[0] == 'cbor.dec.seq':
         return f'{t[0]}:{t[1]}:{m.split(" ")[0]}'
     first = t[1][:2] if t[1] != '-' else 'empty'
@@ -162,8 +162,30 @@ def run(ctx):
     for n_ in (0, 1, 23, 24, 255, 256, 65535, 65536):
         enc.append((f'cbor.enc 1 b{hexs(rbytes(rng, n_))}', 'cbor.dec.bytes'))
         enc.append((f'cbor.enc 1 t{hexs(b"a" * n_)}', 'cbor.dec.text'))
+    enc.append(('cbor.enc 1 m0', 'cbor.dec.map'))
+    enc.append(('cbor.enc 1 m1 k1 u1 v1 u2', 'cbor.dec.map'))
+    for n_ in (23, 24, 31, 32):
+        enc.append((f'cbor.enc 1 m{n_} ' + ' '.join(f'k1 u{i} v1 u{i}' for i in range(n_)), 'cbor.dec.map'))
     g, m = ctx.both([e for e, d in enc])
     back = [f'{d} {x.split(" ")[1]}' for (e, d), x in zip(enc, g) if x and x.startswith('ok ')]
     # the expected value is the model's decode of the MODEL's encoding (proved equal to the input, C12.roundtrip_*); a Go encoder that
     # emitted something else has already disagreed above, and a Go decoder that reads it back differently disagrees here
     ctx.both(back)
+    # sequences on ONE encoder in which some calls are refused (invalid UTF-8, duplicate keys): what the stream holds afterwards is the
+    # accepted items only, and decodes back to them (cbor.dec.seq over the Go bytes)
+    bad = ['tff6162', 'tc328', 'm2 k1 t61 v1 u1 k1 t61 v1 u2', 'm3 k1 u1 v1 u1 k1 u2 v1 u2 k1 u1 v1 u3']
+    good = [('u7', 'u'), ('t6f6b', 't'), ('baabbcc', 'b'), ('a2 u1 u2', 'auu'), ('m0', 'm'), ('m1 k1 u1 v1 u2', 'muu'), ('i-5', None), ('u18446744073709551615', 'u')]
+    cont = []
+    for _ in range(120 if ctx.tier != 'thorough' else 2000):
+        seq, script = [], ''
+        for _ in range(rng.randrange(2, 6)):
+            if rng.random() < 0.35:
+                seq.append(rng.choice(bad))
+            else:
+                tk, sc = rng.choice(good)
+                seq.append(tk); script = None if (sc is None or script is None) else script + sc
+        # number of top-level calls: count tokens that start a call outside map bodies
+        top = len(seq) + sum(t.count(' u') for t in seq if t.startswith('a2'))      # 'a2 u1 u2' = three top-level calls
+        cont.append((f'cbor.enc.cont {top} ' + ' '.join(seq), script))
+    g2, m2 = ctx.both([c for c, sc in cont])
+    ctx.both([f'cbor.dec.seq bytes {sc} {x.split(" ")[1]}' for (c, sc), x in zip(cont, g2) if sc and x and x.startswith('ok ') and x.split(' ')[1] != '-'])
